@@ -102,6 +102,32 @@ class Runner:
                 tuple(b.get("shims", [])), tuple(b.get("extra_srcs", [])), tuple(b.get("flags", [])),
                 tuple(b.get("libs", ["-lrapidcheck", "-lpthread"])), self.log)
 
+    # -- crash triage ------------------------------------------------------
+    def triage_crash(self, pr, candidate):
+        """A worker died on `candidate`.  Replay it under an ASan/UBSan build of the same harness and compare the
+        report's signature (kind + innermost library frames) with the listed signature findings of this property.
+        Returns the finding id, or None (then the crash goes through the normal confirmation and is a VIOLATION)."""
+        sigs = [e for e in load_known(self.pid) if e.get("kind") == "signature"]
+        if not sigs:
+            return None
+        from fuzz import signature
+        b = self.cfg["bins"][pr["binkey"]]
+        tc = b.get("tc", "gcc")
+        binary = pr["binary"]
+        if tc not in ("asan", "fuzz", "fuzzbig"):
+            binary = build.build_bin("%s-%s-asan" % (self.pid, pr["binkey"]), "asan", b["src"], tuple(b.get("variants", ["plain"])),
+                                     tuple(b.get("shims", [])), tuple(b.get("extra_srcs", [])), tuple(b.get("flags", [])),
+                                     tuple(b.get("libs", ["-lrapidcheck", "-lpthread"])), self.log)
+        st, out = run_replay(binary, candidate, self.env, 120)
+        if st != "crash":
+            return None
+        import re
+        sig = signature(out)
+        for e in sigs:
+            if all(re.search(rx, sig + "\n" + out) for rx in e["match"]):
+                return e["id"]
+        return None
+
     # -- violation bookkeeping --------------------------------------------
     def confirm(self, binary, candidate, why, accept=("fail", "crash", "timeout"), timeout=120, binkey=None):
         """Replay a candidate 3x in fresh processes; only a reproducible failure is a violation."""
@@ -280,6 +306,11 @@ class Runner:
                     if "ERROR: AddressSanitizer" in line or "runtime error:" in line or "ThreadSanitizer" in line or "Assertion" in line:
                         sig = line.strip()[:300]
                         break
+                kid = self.triage_crash(pr, pr["scratch"])
+                if kid:
+                    agg["known"][kid] = agg["known"].get(kid, 0) + 1
+                    agg["inconclusive"].append("%s: stopped at a case in known crash class %s; its remaining budget was not explored" % (pr["tag"], kid))
+                    continue
                 self.confirm(pr["binary"], pr["scratch"], sig, binkey=pr["binkey"])
             else:
                 agg["inconclusive"].append("%s: exited with %s and left no case" % (pr["tag"], rc))
